@@ -312,7 +312,9 @@ func (a Float) M__bool__() (Object, error) {
 }
 
 func (a Float) M__int__() (Object, error) {
-	if a >= IntMin && a <= IntMax {
+	// IntMax isn't representable as a float (it rounds up to
+	// 2**63) so compare against the exact power of two
+	if a >= -(1<<63) && a < (1<<63) {
 		return Int(a), nil
 	}
 	frac, exp := math.Frexp(float64(a))              // x = frac << exp; 0.5 <= abs(x) < 1
